@@ -12,7 +12,7 @@ import json
 import os
 import re
 
-from .. import special, inline, cg, core, emit, guards, vt
+from .. import wiring, special, inline, cg, core, emit, guards, vt
 from . import c15, c17, c08
 
 
@@ -202,7 +202,7 @@ def run(ctx, rep):
     sub = core.Report('C10', rep.tier)
     c17.run(ctx, sub)
     for o in sub.obligations:
-        if o['rule'] == 'W5' and 'check_write_file' in o['key']:
+        if o['rule'] == 'W5' and wiring.output_writer(ctx)['name'] in o['key']:
             o2 = dict(o, rule='B4', key='B4:' + o['key'].split(':', 1)[1])
             rep.obligations.append(o2)
     # B5: joined doc lines (shared with C15 X3)
